@@ -62,6 +62,10 @@ PROPS = {
             "suites": [{"suite": "toggles", "trace": "Trace_Toggles", "cfg": "Trace_Toggles.cfg", "sched_from": "MC_Toggles",
                         "extra": {"mode": "sched"}, "quick": {"runs": 0}, "thorough": {"runs": 0}, "procs": 4},
                        POOL_SUITE, VAULT_SUITE]},
+    "C18": {"mc": [{"module": "MC_Config", "quick": "MC_Config.cfg", "thorough": "MC_Config.cfg", "workers": 4, "emits": "MC_Config"}],
+            "suites": [{"suite": "config", "trace": "Trace_Config", "cfg": "Trace_Config.cfg", "sched_from": "MC_Config",
+                        "extra": {"mode": "sched"}, "quick": {"runs": 0}, "thorough": {"runs": 0}, "procs": 6},
+                       POOL_SUITE, VAULT_SUITE]},
     "C14": {"mc": [MC_POOL, MC_VAULT], "suites": [POOL_SUITE, VAULT_SUITE]},
     "C15": {"mc": [MC_POOL], "suites": [POOL_SUITE, MATH_SPREAD]},
 }
